@@ -154,6 +154,13 @@ impl<'a> W2<'a> {
             if let Err((what, detail)) = r {
                 let prop = Self::prop_of(&self.clients[i]);
                 if i == acting {
+                    if matches!(op, "ShrinkToFit" | "Reserve" | "ReserveExact" | "TryReserve" | "TryReserveExact" | "TryReserveLimited" | "ShrinkTo")
+                        && matches!(what, "contents-differ" | "std-collection-in-arena-differs" | "text-differs")
+                    {
+                        // an operation that only moves / resizes the buffer changed what it holds:
+                        // "growing or shrinking a block preserves its first min(old,new) bytes"
+                        self.violate("C02", "realloc-lost-contents", "by-a-collection", op, format!("client {}: {}", i, detail.clone()));
+                    }
                     self.violate(prop, what, "", op, detail);
                 } else {
                     // a neighbour changed although it was not the one operated on
